@@ -29,7 +29,7 @@ DURATIONS = [None, 0, 300, 86400, 43200, 3600]
 
 def end_variants(start):
     """(end description, duration seconds) pairs fitting the start (plus RFC-forbidden ones)"""
-    out = [(None, None), (None, 86400), (None, 3600), (None, 36 * 3600), (None, 2 * 86400)]
+    out = [(None, None), (None, 86400), (None, 3600), (None, 36 * 3600), (None, 2 * 86400), (None, 0), (None, 1)]   # incl. zero length
     if start is None:
         out += [(("d", 2020, 3, 30), None), (("n", 2020, 3, 29, 12, 0, 0), None)]
     elif start[0] == "d":
